@@ -1,0 +1,45 @@
+//go:build verif
+
+package bytes
+
+// Contracts for common/bytes (properties C16, C02, C07).
+// Oracle: little-endian byte layout of a two's-complement 32-bit word:
+// byte i of n is bits 8i..8i+7.
+
+//@ mode bv
+
+//@ func getI8Bit
+//@   requires n < 8
+//@   ensures result == (((uint8(input) >> n) & 1) == 1)
+//@   assigns nothing
+
+//@ func getI32Bit
+//@   requires n < 32
+//@   ensures result == (((uint32(input) >> n) & 1) == 1)
+//@   assigns nothing
+
+//@ func setI8Bit
+//@   requires i < 8
+//@   ensures uint8(result) == (uint8(n) | (uint8(1) << i))
+//@   assigns nothing
+
+//@ func setI32Bit
+//@   requires i < 32
+//@   ensures uint32(result) == (uint32(n) | (uint32(1) << i))
+//@   assigns nothing
+
+//@ func BytesFromLowBits
+//@   ensures uint8(result[0]) == uint8(uint32(n))
+//@   ensures uint8(result[1]) == uint8(uint32(n) >> 8)
+//@   ensures uint8(result[2]) == uint8(uint32(n) >> 16)
+//@   ensures uint8(result[3]) == uint8(uint32(n) >> 24)
+//@   assigns nothing
+
+//@ func I32FromBytes
+//@   ensures uint32(result) == (uint32(uint8(i1)) | (uint32(uint8(i2)) << 8) | (uint32(uint8(i3)) << 16) | (uint32(uint8(i4)) << 24))
+//@   assigns nothing
+
+// Round trips, discharged from the two contracts above only (not the bodies).
+
+//@ lemma splitThenJoin(n int32): I32FromBytes(BytesFromLowBits(n)[0], BytesFromLowBits(n)[1], BytesFromLowBits(n)[2], BytesFromLowBits(n)[3]) == n
+//@ lemma joinThenSplit(a int8, b int8, c int8, d int8): BytesFromLowBits(I32FromBytes(a, b, c, d))[0] == a && BytesFromLowBits(I32FromBytes(a, b, c, d))[1] == b && BytesFromLowBits(I32FromBytes(a, b, c, d))[2] == c && BytesFromLowBits(I32FromBytes(a, b, c, d))[3] == d
